@@ -74,8 +74,8 @@ def k7_calls(isa, t, tier, rng, half=None):
     for i, n in enumerate(range(1, top + 1)):
         if half is not None and n % 2 != half:
             continue
-        if half is not None and t in ("int32_t", "int64_t") and n % 4 >= 2 and n not in (V - 1, V + 1, 2 * V + 1):
-            continue        # quick tier: the integer types take half of their share of the N sweep (C01 sweeps matmul in depth)
+        if half is not None and n not in (V - 1, V + 1, 2 * V + 1) and (t in ("int32_t", "int64_t") or (n // 2) % 2 == 1):
+            continue        # quick tier: a thinned N sweep (C01 sweeps matmul in depth); the integer types keep the edge extents only
         fs = mm if full else [mm[i % 3]]
         for f in fs:
             m = rng.choice([1, 2, 3, 4, 5, 7, 8, 9, V + 1, 2 * V + 1])
@@ -99,7 +99,7 @@ def k7_calls(isa, t, tier, rng, half=None):
             m, k = rng.randint(1, 9), rng.randint(1, 9)
             calls.append('g_tmatmul_raw<%s,%d,%d,%d,%s,%s>("%s%s");' % (t, m, k, n, tags[a], tags[b], a, b))
     # transpose: square specialisations and rectangular with remainders in both directions
-    sq = [2, 3, 4, 8] + ([V, 2 * V] if V > 1 else [])
+    sq = ([2, 3, 4, 8] + ([V, 2 * V] if V > 1 else [])) if full else ([3, 4] + ([V] if V > 4 else []))
     for m in sorted(set(sq)):
         calls.append("g_transpose_raw<%s,%d,%d>();" % (t, m, m))
         if full or m in (3, V):
@@ -135,7 +135,7 @@ def k7_calls(isa, t, tier, rng, half=None):
         for m in [2, 3, 4]:
             calls.append("g_adjcof_raw<%s,%d>();" % (t, m))
     if not isc:
-        for m in [1, 2, 3, 4, 5] + ([8, V + 1] if full else [V + 1]):
+        for m in ([1, 2, 3, 4, 5, 8, V + 1] if full else [2, 3, V + 1]):
             calls.append("g_trace_raw<%s,%d>();" % (t, m))
             if full or m in (2, 3):
                 calls.append("g_trace_map<%s,%d>();" % (t, m))
@@ -159,13 +159,13 @@ def k7_calls(isa, t, tier, rng, half=None):
     for (m, n) in ([(2, 2), (3, 3), (4, 4), (8, 8), (3, 5), (V + 1, 3)] if full else ([(3, 3), (4, 4), (V + 1, 3)] if isf else [(3, 3)])):
         special.append("g_trans_assign<%s,%d,%d>();" % (t, m, n))
     if not isc:
-        for (b, m) in ([(4, 3), (2, 3), (3, 2), (2, 4), (5, 3), (3, 8), (7, 3)] if full else ([(4, 3), (3, 2), (2, 4)] if isf else [(4, 3)])):
+        for (b, m) in ([(4, 3), (2, 3), (3, 2), (2, 4), (5, 3), (3, 8), (7, 3)] if full else ([(4, 3), (3, 2)] if isf else [(4, 3)])):
             special.append("g_own_batch<%s,%d,%d>();" % (t, b, m))
             if isf and m <= 4:      # batched determinant / inverse exist for matrices up to 4x4 (larger: `_det` asserts)
                 special.append("g_own_batch_la<%s,%d,%d>();" % (t, b, m))
-        for n in sorted(set([V + 1, top] + ([3, 5, 7, 9, V, 2 * V, 2 * V + 1] if full else []))):
+        for n in sorted(set([V + 1] + ([3, 5, 7, 9, V, 2 * V, 2 * V + 1, top] if full else []))):
             special.append("g_own_1d<%s,%d>();" % (t, n))
-        for (m, n) in ([(2, 2), (3, 3), (2, 3)] if full or isf else [(2, 2)]):
+        for (m, n) in ([(2, 2), (3, 3), (2, 3)] if full else ([(2, 2), (3, 3)] if isf else [])):
             special.append("g_outer22_map<%s,%d,%d>();" % (t, m, n))
     # public routes into the kernels with hard-wired aligned accesses (ALIGNREQ when called raw): _matmul<float,8,K,8>,
     # _dyadic<float,4,4>, _norm<float,4>, _det 2x2 - through maps, expressions of maps, einsum, batches
@@ -177,8 +177,32 @@ def k7_calls(isa, t, tier, rng, half=None):
         # the fixed-size outer-product kernels (2, 3, 4 element vectors) raw and through maps
         special += ["g_outer_raw<%s,3,3>();" % t, "g_outer_raw<%s,2,2>();" % t, "g_outer_raw<%s,4,4>();" % t, "g_outer_map<%s,3,3>();" % t,
                     "g_matmul_map<%s,3,1,3>();" % t]
-        special += ["g_det_map<%s,2>();" % t, "g_own_batch_la<%s,3,2>();" % t, "g_own_batch_la<%s,5,2>();" % t, "g_outer22_map<%s,3,3>();" % t,
-                    "g_heap_new<%s,64>();" % t, "g_heap_new<%s,9>();" % t]
+        special += ["g_det_map<%s,2>();" % t, "g_own_batch_la<%s,5,2>();" % t,
+                    "g_heap_new<%s,9>();" % t] + (["g_heap_new<%s,64>();" % t] if full else [])
+    # round 3: index / mask views, layout (reshape, flatten, converters), reductions over views, LU / QR / pivoted inverse on maps.
+    # Sizes: one extent per residue class mod V is spread over the families (r3 = residues 0..V-1 shifted past V)
+    res = [V + r for r in range(V)] if V > 1 else [1, 2, 3]
+    if not full:
+        res = [x for i, x in enumerate(res) if half is None or i % 2 == half] or res[:1]
+        if len(res) > 4:
+            res = res[::(len(res) + 3) // 4]
+    r3 = []
+    if not isc:
+        for i, n in enumerate(res):
+            r3.append("g_reduce_view<%s,%d>();" % (t, n))
+            if full or i % 2 == 0 or len(res) == 1:
+                r3.append("g_randview<%s,%d>();" % (t, n))
+                r3.append("g_layout_map<%s,%d,%d>();" % (t, 1 + i % 3, n))
+            if full or i % 2 == 1 or len(res) == 1:
+                r3.append("g_filterview<%s,%d>();" % (t, n))
+                r3.append("g_randview2d<%s,%d,%d>();" % (t, 2 + i % 2, n))
+        if isf:
+            for m in ([2, 3, 4, 5, 8, 9] if full else [3, 5, 9]):
+                r3.append("g_lu_map<%s,%d>();" % (t, m))
+            for m in ([2, 3, 4, 5, 8] if full else [3, 5]):
+                r3.append("g_qr_map<%s,%d>();" % (t, m))
+            r3 += ["g_dyn_trans<%s,4,4>();" % t, "g_dyn_inner<%s,%d>();" % (t, 4 * V if V > 1 else 8), "g_heap_vec<%s,9>();" % t]
+    special += r3
     nspecial = len(special)
     calls = special + calls
     # de-duplicate, drop non-positive extents
@@ -189,7 +213,7 @@ def k7_calls(isa, t, tier, rng, half=None):
         seen.add(c); out.append(c)
     return out
 
-KEEP = re.compile(r"g_(outer_raw<\w+,[234],[234]>|trans_assign|own_batch|own_batch_la|heap_new|outer22_map|own_1d|expr_arith|reduce_map|inner_map|methods_map|methods_tensor|view1d|expr_mixed|reduce_expr|expr_math|norm_raw|minmax_map|matmul_raw|matmul_map|matmul_expr)<")
+KEEP = re.compile(r"g_(reduce_view|randview|randview2d|layout_map|filterview|lu_map|qr_map|dyn_trans|dyn_inner|heap_vec|outer_raw<\w+,[234],[234]>|trans_assign|own_batch|own_batch_la|heap_new|outer22_map|own_1d|expr_arith|reduce_map|inner_map|methods_map|methods_tensor|view1d|expr_mixed|reduce_expr|expr_math|norm_raw|minmax_map|matmul_raw|matmul_map|matmul_expr)<")
 
 def thin(calls, stride, seed):
     """quick tier: the families that carry the `every extent 1..2V+3` sweep and the public-API specials are kept, the
@@ -214,14 +238,14 @@ def k7_groups(tier, seed):
             gen_tier = tier if (tier == "quick" or (isa in ("sse2", "avx2", "avx512") and t in FTYPES)) else "quick"
             calls = k7_calls(isa, t, gen_tier, rng, half)
             if tier == "quick":
-                calls = thin(calls, 6 if isa == "scalar" else 3, seed)
-            groups.append({"key": "k7/%s/%s" % (isa, t), "header": "guard_ops.h", "isa": isa, "opt": "-O2", "calls": calls,
+                calls = thin(calls, 6 if isa == "scalar" else 4, seed)
+            groups.append({"key": "k7/%s/%s" % (isa, t), "header": "guard_ops.h", "isa": isa, "opt": "-O2", "calls": calls, "defs": ["-DNDEBUG"],
                            "pre": "#define VG_SEED %du" % (seed & 0xffff)})
     if tier == "quick":     # one configuration of the remaining families and the complex types
         for isa, t in [("avx", "float"), ("avx", "int32_t"), ("sse42", "float"), ("avx2", "std::complex<double>"), ("sse2", "std::complex<float>"),
                        ("avx512", "std::complex<double>")]:
-            calls = thin(k7_calls(isa, t, tier, rng, seed % 2), 5, seed)
-            groups.append({"key": "k7/%s/%s" % (isa, t), "header": "guard_ops.h", "isa": isa, "opt": "-O2", "calls": calls,
+            calls = thin(k7_calls(isa, t, tier, rng, seed % 2), 8, seed)
+            groups.append({"key": "k7/%s/%s" % (isa, t), "header": "guard_ops.h", "isa": isa, "opt": "-O2", "calls": calls, "defs": ["-DNDEBUG"],
                            "pre": "#define VG_SEED %du" % (seed & 0xffff)})
     return groups
 
@@ -275,7 +299,7 @@ def extra_k7_groups(tier, seed):
         for t in FTYPES:
             cs = thin(k7_calls(isa, t, "quick", rng, 0), 7, seed)
             calls += [c for c in cs if "heap_new" in c] + [c for c in cs if "heap_new" not in c][seed % 3::3]
-        groups.append({"key": "k7-cxx17/%s" % isa, "header": "guard_ops.h", "isa": isa, "opt": "-O2", "std": "c++17", "calls": calls, "pre": pre})
+        groups.append({"key": "k7-cxx17/%s" % isa, "header": "guard_ops.h", "isa": isa, "opt": "-O2", "std": "c++17", "defs": ["-DNDEBUG"], "calls": calls, "pre": pre})
     bc = ["g_bounds2d<%s,%d,%d>();" % (t, m, n) for t in ["float", "int64_t"] for (m, n) in [(3, 4), (1, 1), (5, 2)]]
     groups.append({"key": "k7-checks/sse2", "header": "guard_ops.h", "isa": "sse2", "opt": "-O1", "defs": ["-DVG_CHECKS", "-DNDEBUG"] + CHECKS_ON, "calls": bc, "pre": pre})
     groups.append({"key": "k7-checks/avx512", "header": "guard_ops.h", "isa": "avx512", "opt": "-O2", "defs": ["-DVG_CHECKS", "-UNDEBUG"], "calls": bc, "pre": pre})
@@ -361,6 +385,26 @@ def run(tier, seed):
         "k7_groups": sorted(set(g["key"] for g in kg)), "corr_groups": sorted(g["key"] for g in cg),
         "k7_families": sorted(set(c.split("<")[0] for g in kg for c in g["calls"])),
         "samples": [{"input": l[0], "impl": l[1], "model": l[2]} for l in lines[:2]] + ksamples,
+        "footprint_family": {
+            "Model/Matmul (C01)": ["matmul_writes_in_result", "matmul_reads_in_operands", "matmul_read_sets_in_operands"],
+            "Model/Tmatmul (C17)": ["tmatmul_writes_in_result", "tmatmul_reads_in_operands", "tmatmul_read_sets_in_operands"],
+            "Model/Expr (C02)": ["assign_reads_in_operands", "assign_reads_cover"],
+            "Model/Einsum (C03)": ["einsum_reads_in_operands"],
+            "Model/ViewWrite (C05)": ["view1d_footprint", "view2d_footprint"],
+            "Model/Views (C04)": ["views_read_footprint", "views_gather_footprint", "views_teval_footprint", "views_teval_gather_footprint", "views_eval2_footprint", "views_consumer_footprint"],
+            "Model/Reduce (C16)": ["reduce_footprint"],
+            "Model/RandomViews (C19)": ["random_view_footprint"],
+            "Model/Layout, Model/MapAlias (C20)": ["layout_footprint", "map_reshape_footprint", "map_flatten_squeeze_footprint"],
+            "Model/Transpose, Model/Permute (C14)": ["transpose_footprint", "permute_writes_in_result", "permute_reads_in_operand"],
+            "Model/Inverse (C10)": ["inverse_leaf_reads_in_operand"],
+            "Model/Kern3 (C07)": ["transpose33_footprint", "matmul333_footprint", "matmul3K3_footprint", "matvec331_footprint", "small_kernels_footprint",
+                                  "whole_vector_kernels_footprint", "dyadic_footprint"],
+            "Model/Footprint (C07)": ["load3_lanes", "store3_lanes", "maskLoop_mem", "maskAvx_eq_maskLoop", "arrayToMask_testBit", "kmask_eq_maskLoop",
+                                      "member_mask_fallback_lanes", "remainderMask_lanes", "masked_tail_in_extent", "aligned_only_on_owned",
+                                      "flagged_accesses_in_extent", "bounds_check_sound", "bounds_check_complete", "memIndex_sound"],
+            "not covered": "Model/LU, Solve, QR and the non-leaf part of Inverse are entry-function models (Mat = Nat -> Nat -> a) without offsets: "
+                           "no footprint statement can be made about them beyond locality; the alias-event part of MapAlias has no offsets either; their operations are covered by K7 "
+                           "(lu_map, qr_map, solve_map, inverse_map, layout_map, permute_map)"},
         "observed_not_proved": ["no fault", "no stray write", "inputs unchanged", "placement independence", "no allocation", "sanitizers (thorough)"],
     })
     if symrun.REJECTED:
